@@ -6,7 +6,8 @@ SOLVER3 = ["tana3d", "sweep3d_call", "sweep3d", "fteik3d"]
 INTERP = ["interp2d", "interp3d"]
 VINTERP = ["vinterp2d", "vinterp3d"]
 RAYS = ["shrink", "ray2d", "ray3d"]
-ALLG = INTERP + VINTERP + SOLVER2 + SOLVER3 + RAYS
+LISTS = ["solve2d_list", "solve3d_list", "interp2d_list", "interp3d_list", "vinterp2d_list", "vinterp3d_list", "ray2d_list", "ray3d_list"]
+ALLG = INTERP + VINTERP + SOLVER2 + SOLVER3 + RAYS + LISTS
 
 MODELLED = [
     "modelled, not verified: NumPy/SciPy glue of the API layer (_base/_grid/_solver/_io), Numba's runtime and LLVM code generation, CPython",
@@ -67,7 +68,7 @@ PROPS = {
              "downwards; a full sweep pass lowers every node or leaves it; nsweep is the iteration count of one pass function; "
              "strictly decreasing float ranks give convergence after finitely many passes.",
              RULE_SOLVE + "; nsweep = 1..32", props="props/C07.v"),
-    "C08": P(GALL, ["fteik2d", "fteik3d", "interp2d", "vinterp2d", "ray2d", "ray3d"], "proof",
+    "C08": P(GALL, LISTS + ["fteik2d", "interp2d", "vinterp3d", "ray3d"], "proof",
              "Theorems: in the generated model every parallel loop is a map of the per-item kernel over the items in input order "
              "(the translator rejects a parallel loop whose body writes anything but its own output slots or reads them); the "
              "runtime (threads, chunking, backend, concurrent callers) is observed by the oracle: list vs single results bit-for-bit "
@@ -94,7 +95,7 @@ PROPS = {
              "NUMBA_BOUNDSCHECK=1 on boundary-heavy inputs.",
              RULE_SOLVE + "; point evaluation and both ray modes on faces/edges/corners, tiny max_step", props="props/C12.v",
              mode="boundscheck", oracle_n=(25, 200)),
-    "C13": P(GALL, ["fteik2d", "fteik3d", "ray2d", "ray3d"], "proof",
+    "C13": P(GALL, ["fteik2d", "fteik3d", "ray2d", "ray3d", "solve2d_list", "solve3d_list", "ray2d_list", "ray3d_list"], "proof",
              "Theorems: single-item kernels raise ValueError iff outside / RuntimeError iff budget; the list forms raise exactly "
              "what the first failing item raises and otherwise return the map of the items.",
              "offending item at every position of lists of length 2..5, thread counts {1,2,4,max}, outside by 1 ulp / far / NaN on each axis",
